@@ -18,10 +18,7 @@ import Drx.Spec.LingoPrint
 namespace Drx.Link
 open Drx
 
-abbrev Str := List Char
-abbrev Node := Lscr.Node
-abbrev PState := Lscr.PState
-open Drx.Lscr (S)
+open Drx.Lscr (S Node PState Str)
 
 /-- `BinaryOperationNames` value of a source operator -/
 def binName : Spec.BinOp → Str
@@ -75,6 +72,101 @@ def EmbS : Spec.Stmt → Node → Prop
 def EmbSs : List Spec.Stmt → List Node → Prop
   | [], ns => ns = []
   | s :: ss, ns => ∃ x xs, ns = x :: xs ∧ EmbS s x ∧ EmbSs ss xs
+
+/-! ### the fragment -/
+
+/-- an identifier the lexer reads back as one identifier token -/
+def idOk : Spec.Name → Bool
+  | [] => false
+  | c :: cs => Spec.isIdStart c && cs.all Spec.isIdChar
+
+/-- does the printed form start with a minus sign? (`-(-x)` is the repaired form of F21; the reference printer writes `- - x`) -/
+def startsMinus : Spec.Expr → Bool
+  | .un .neg _ => true
+  | _ => false
+
+mutual
+/-- expressions of the link theorems -/
+def FragE : Spec.Expr → Bool
+  | .int _ => true
+  | .var _ n => idOk n
+  | .un .neg a => FragE a && !startsMinus a
+  | .un .not a => FragE a
+  | .bin o a b => decide (o ≠ .starts) && FragE a && FragE b
+  | _ => false
+def FragL : List Spec.Expr → Bool
+  | [] => true
+  | e :: es => FragE e && FragL es
+end
+
+/-- assignment targets: the four variable kinds -/
+def FragLv : Spec.Expr → Bool
+  | .var _ n => idOk n
+  | _ => false
+
+/-- statements of the link theorems -/
+def FragS : Spec.Stmt → Bool
+  | .set lv v => FragLv lv && FragE v
+  | _ => false
+
+def FragSs : List Spec.Stmt → Bool
+  | [] => true
+  | s :: ss => FragS s && FragSs ss
+
+/-! ### the text the model prints for a source program -/
+
+/-- operator text (`LINGO_BIN_OP`; `sprite... ` stripped for the two prefix forms) -/
+def opTxt : Spec.BinOp → Str
+  | .mul => S "*" | .add => S "+" | .sub => S "-" | .div => S "/" | .mod => S "mod" | .concat => S "&" | .concats => S "&&"
+  | .lt => S "<" | .le => S "<=" | .ne => S "<>" | .eq => S "=" | .gt => S ">" | .ge => S ">=" | .and => S "and" | .or => S "or"
+  | .contains => S "contains" | .starts => S "start" | .intersects => S "intersects" | .within => S "within"
+
+mutual
+/-- `generate_lingo` of the image of an expression -/
+def mE : Spec.Expr → Str
+  | .int k => Lscr.natStr k
+  | .var _ v => v
+  | .un .neg a => S "-" ++ mE a
+  | .un .not a => S "not " ++ mE a
+  | .bin o a b =>
+    if o.isInfix then S "(" ++ mE a ++ S " " ++ opTxt o ++ S " " ++ mE b ++ S ")"
+    else S "sprite " ++ mE a ++ S " " ++ opTxt o ++ S " " ++ mE b
+  | .field a => S "field " ++ mE a
+  | .call f as => f ++ S "(" ++ mArgs as ++ S ")"
+  | .list as => S "[" ++ mArgs as ++ S "]"
+  | _ => []
+/-- `", ".join(...)` -/
+def mArgs : List Spec.Expr → Str
+  | [] => []
+  | [e] => mE e
+  | e :: es => mE e ++ S ", " ++ mArgs es
+end
+
+/-- one statement line at indentation level `ind` -/
+def mS (ind : Nat) : Spec.Stmt → Str
+  | .set lv v => Lscr.indentOf ind ++ S "set " ++ mE lv ++ S " = " ++ mE v ++ S "\n"
+  | .call f as => Lscr.indentOf ind ++ f ++ (if as.isEmpty then [] else S " " ++ mArgs as) ++ S "\n"
+  | .exit => Lscr.indentOf ind ++ S "exit\n"
+  | _ => []
+
+def mSs (ind : Nat) : List Spec.Stmt → Str
+  | [] => []
+  | s :: ss => mS ind s ++ mSs ind ss
+
+/-- `on name a, b` … `end` (handlers whose globals are all declared at script level) -/
+def mHandler (h : Spec.Handler) : Str :=
+  S "on " ++ h.name ++ (if h.params.isEmpty then [] else S " " ++ Lscr.joinWith (S ", ") h.params) ++ S "\n"
+    ++ mSs 1 h.body ++ S "end\n"
+
+def mHandlers : List Spec.Handler → Bool → Str
+  | [], _ => []
+  | h :: hs, first => (if first then [] else S "\n") ++ mHandler h ++ mHandlers hs false
+
+/-- `generate_lingo_code` for a plain (non-factory) script -/
+def mText (s : Spec.Script) : Str :=
+  (if s.props.length > 0 then S "property " ++ Lscr.joinWith (S ", ") s.props ++ S "\n" else [])
+    ++ (if s.globals.length > 0 then (s.globals.map fun g => S "global " ++ g ++ S "\n").flatten ++ S "\n" else [])
+    ++ mHandlers s.handlers true
 
 /-! ### the model's opcode step on decoded instructions -/
 
